@@ -1204,7 +1204,13 @@ func (e *integEngine) loop() {
 		k := c.Ch.Weighted(w, "integ-act")
 		switch {
 		case k < len(parks):
-			if prof.PreemptPct > 0 && preemptPoints > 0 && parks[k].Kind != "finish" && c.Ch.Bool(prof.PreemptPct, 100, "preempt") {
+			downExec := false
+			if info, ok := parks[k].Data.(*ExecInfo); ok && info != nil && info.Block == "down" {
+				// (Finish takes the contexts down in the iteration order of a sync.Map: where its
+				// goroutine would be stopped is not a function of the seed)
+				downExec = true
+			}
+			if prof.PreemptPct > 0 && preemptPoints > 0 && parks[k].Kind != "finish" && !downExec && c.Ch.Bool(prof.PreemptPct, 100, "preempt") {
 				// the goroutine released now is taken off the processor again at one of its next
 				// function entries inside taskctl's code
 				if stmtPoints > 0 && c.Ch.Bool(1, 2, "preempt-at-statement") {
